@@ -111,7 +111,7 @@ def dotted(e) -> str | None:
 
 
 class Module:
-    def __init__(self, root: Path, path: Path):
+    def __init__(self, root: Path, path: Path, attr_map=None, class_map=None):
         self.path = path
         self.rel = str(path.relative_to(root))
         self.source = path.read_text()
@@ -126,6 +126,14 @@ class Module:
 
         from .normalize import augment, canonical_imports, deannotate
 
+        if class_map:
+            from .normalize import rename_classes
+
+            rename_classes(self.tree, class_map)
+        if attr_map:
+            from .normalize import rename_attributes
+
+            rename_attributes(self.tree, attr_map)
         deannotate(self.tree)
         canonical_imports(self.tree)
         augment(self.tree)
@@ -155,6 +163,20 @@ class Module:
                 self.renamed.extend(got)
                 self.functions, self.classes = {}, {}
                 self._index(self.tree.body, '', None, None)
+        # locals that were renamed consistently are read under their recorded names
+        self.locals_restored: list = []
+        if not os.environ.get('MPSA_NO_RENAME_TOLERANCE'):
+            from .anchors import load_anchors as _la2
+            from .normalize import restore_local_names
+
+            ref_loc = (_la2().get('__locals__') or {}).get(self.rel)
+            if ref_loc:
+                for q_, fi_ in list(self.functions.items()):
+                    if isinstance(fi_.parent, FuncInfo) or q_ not in ref_loc:
+                        continue
+                    got_ = restore_local_names(fi_.node, ref_loc[q_])
+                    if got_:
+                        self.locals_restored.append((q_, got_))
         # calls of helpers that did not exist in the confirmed tree are read in place (extract-method tolerance)
         self.inlined: list = []
         if not os.environ.get('MPSA_NO_RENAME_TOLERANCE'):
@@ -269,8 +291,33 @@ class Repo:
         if not pkg.is_dir():
             raise AnchorError(f'{pkg} is not a directory')
         self.modules: dict[str, Module] = {}
+        # attributes renamed consistently across the package are read under their recorded names
+        self.attrs_restored: dict = {}
+        self.classes_restored: dict = {}
+        if not os.environ.get('MPSA_NO_RENAME_TOLERANCE'):
+            from .anchors import load_anchors
+            from .normalize import attribute_renames, attribute_signatures
+
+            from .normalize import class_renames, class_signatures, identifiers
+
+            ref_attrs = load_anchors().get('__attrs__')
+            ref_cls = load_anchors().get('__classes__')
+            if ref_attrs or ref_cls:
+                cur_attrs, cur_cls, words = {}, {}, set()
+                for p in sorted(pkg.rglob('*.py')):
+                    try:
+                        t_ = ast.parse(p.read_text())
+                    except SyntaxError:
+                        continue  # reported by Module below
+                    cur_attrs[str(p.relative_to(self.root))] = attribute_signatures(t_)
+                    cur_cls[str(p.relative_to(self.root))] = class_signatures(t_)
+                    words |= identifiers(t_)
+                if ref_attrs:
+                    self.attrs_restored = attribute_renames(cur_attrs, ref_attrs)
+                if ref_cls:
+                    self.classes_restored = class_renames(cur_cls, ref_cls, words, set(load_anchors().get('__words__') or ()))
         for p in sorted(pkg.rglob('*.py')):
-            m = Module(self.root, p)
+            m = Module(self.root, p, attr_map=self.attrs_restored, class_map=self.classes_restored)
             m.repo = self
             self.modules[m.rel] = m
 
